@@ -96,8 +96,10 @@ for Crossbeam<'a, ItemType, BUFFER_SIZE, MAX_STREAMS> {
 
     #[inline(always)]
     fn send(&self, item: ItemType) -> keen_retry::RetryConsumerResult<(), ItemType, ()> {
+        vp!("cb.len");
         match self.tx.len() {
             len_before if len_before <= 2 => {
+                vp!("cb.try");
                 let ret = self.tx.try_send(item);
                 self.streams_manager.wake_stream(0);
                 ret
@@ -175,6 +177,7 @@ Crossbeam<'a, ItemType, BUFFER_SIZE, MAX_STREAMS> {
 
     #[inline(always)]
     fn consume(&self, stream_id: u32) -> Option<ItemType> {
+        vp!("cb.recv");
         match self.rx.try_recv() {
             Ok(event) => {
                 Some(event)
